@@ -89,6 +89,8 @@ class RefSer:
             if s.opt("kind") == "typeddict":
                 return isinstance(v, dict)
             return isinstance(v, self.prog.cls(s.opt("name")))
+        if k == "disc":
+            return any(self.matches(self.defs[a.opt("name")] if a.k == "ref" else a, v) for a in s.a)
         raise ValueError(k)
 
     def any(self, v):
@@ -146,6 +148,19 @@ class RefSer:
             return self.any(v.value)
         if k == "obj":
             return self.ser_obj(s, v)
+        if k == "disc":
+            # documented: the alternative's own image plus the discriminator key, unless the
+            # alternative already emits a field under that name
+            for a in s.a:
+                a = self.defs[a.opt("name")] if a.k == "ref" else a
+                if a.opt("kind") == "typeddict" or not self.matches(a, v):
+                    continue
+                out = self.ser_obj(a, v)
+                alias = self.o.aliaser(s.opt("alias"))
+                if alias not in out:
+                    out[alias] = next(key for key, cname in s.opt("mapping") if cname == a.opt("name"))
+                return out
+            raise ValueError("no discriminated alternative matches the value")
         raise ValueError(k)
 
     def ser_fields(self, s: Sp):
